@@ -9,6 +9,7 @@ CHECKS = {
     "C01": ("codec", True),
     "C02": ("codec", True),
     "C16": ("codec", True),
+    "C04": ("c04", False),
 }
 
 
